@@ -51,10 +51,10 @@ variable {α : Type} [One α] [Inhabited α]
 theorem ExpTerm.edgesAt_keys (t : ExpTerm α) (lab : Key) (k : Nat) : KeysIn lab (t.edgesAt lab k) := by
   unfold ExpTerm.edgesAt ExpTerm.bodyEdges
   repeat' first
-    | apply KeysIn.append
-    | apply KeysIn.ite
     | exact KeysIn.nil _
     | apply KeysIn.cons
+    | apply KeysIn.ite
+    | apply KeysIn.append
     | exact ⟨Or.inl rfl, Or.inl rfl⟩
     | exact ⟨Or.inl rfl, Or.inr rfl⟩
     | exact ⟨Or.inr rfl, Or.inl rfl⟩
@@ -63,10 +63,10 @@ theorem ExpTerm.edgesAt_keys (t : ExpTerm α) (lab : Key) (k : Nat) : KeysIn lab
 theorem CenteredTerm.edgesAt_keys (t : CenteredTerm α) (lab : Key) (k : Nat) : KeysIn lab (t.edgesAt lab k) := by
   unfold CenteredTerm.edgesAt CenteredTerm.edgesL CenteredTerm.edgesR CenteredTerm.bodyL CenteredTerm.bodyR
   repeat' first
-    | apply KeysIn.append
-    | apply KeysIn.ite
     | exact KeysIn.nil _
     | apply KeysIn.cons
+    | apply KeysIn.ite
+    | apply KeysIn.append
     | exact ⟨Or.inl rfl, Or.inl rfl⟩
     | exact ⟨Or.inl rfl, Or.inr rfl⟩
     | exact ⟨Or.inr rfl, Or.inl rfl⟩
